@@ -123,7 +123,7 @@ def _work(args):
         for k in sorted((set(g) | set(b)) - proxy_keys):
             if g.get(k) != b.get(k):
                 out.append((f"influenced:{k}", f"environ[{k!r}] = {g.get(k)!r} with the headers, {b.get(k)!r} without", kw, hdrs))
-        sent = {"HTTP_" + h.upper().replace("-", "_"): v for h, v in hdrs}
+        sent = {"HTTP_" + h.upper().replace("-", "_"): v.strip(" \t") for h, v in hdrs}  # field values are OWS-trimmed
         for k in proxy_keys:
             if kw.get("clear_untrusted_proxy_headers", True):
                 if k in g:
